@@ -454,12 +454,39 @@ class Gen:
         f = self.pick(self.sh.rdef)
         return (8, self.sfx, f, [self.pick(["Age", "Name", "Owner", "Dept"])] + (["Name"] if self.rng.random() < 0.2 else []))
 
+    POOLS = {"sub": SUBS, "obj": OBJS, "act": ACTS, "dom": DOMS}
+
+    def same_domain_pair(self):
+        """two string terms over the same value pool (so that == / in / keyMatch are not constantly false)"""
+        doms = [f for f in self.sh.rdef if f in self.POOLS and (self.sh.types.get(f, "str") == "str"
+                                                                 or "Name" in self.sh.obj_attrs.get(f, {}))]
+        doms = doms or [f for f in self.sh.pdef if f in self.POOLS] or ["sub"]
+        f = self.pick(doms)
+
+        def one():
+            r = self.rng.random()
+            if r < 0.4 and f in self.sh.rdef:
+                if self.sh.types.get(f, "str") == "str":
+                    return (8, self.sfx, f, [])
+                if "Name" in self.sh.obj_attrs.get(f, {}):
+                    return (8, self.sfx, f, ["Name"])
+            if r < 0.75 and f in self.sh.pdef:
+                return (9, self.sfx, f)
+            return (11, self.rng.random() < 0.6, self.pick(self.POOLS[f]))
+        return one(), one()
+
     # ---- conditions
     def cmp(self, d):
         r = self.rng.random()
+        if r < 0.35:
+            a, b = self.same_domain_pair()
+            return (3, self.pick([0, 0, 0, 1, 1, 2, 5]), a, b)
         if r < 0.55:
             op = self.pick([0, 0, 0, 1, 2, 3, 4, 5])
-            return (3, op, self.str_term(d), self.str_term(d))
+            a, b = self.str_term(d), self.str_term(d)
+            if a[0] == 11 and b[0] == 11:
+                a = self.same_domain_pair()[0]
+            return (3, op, a, b)
         if r < 0.75:
             return (3, self.pick([0, 1, 2, 3, 4, 5]), self.int_term(d), self.int_term(d))
         if r < 0.9:
@@ -470,17 +497,28 @@ class Gen:
         brk = self.rng.random() < 0.5
         n = self.rng.randint(1 if brk else 2, 3)
         left = self.str_term(d) if self.rng.random() < 0.8 else self.any_term(d)
+        if self.rng.random() < 0.5:
+            a, b = self.same_domain_pair()
+            c, _ = self.same_domain_pair()
+            return (4, a, [b, c][: max(n, 1 if brk else 2)] if n <= 2 else [b, c, self.str_term(d)], brk)
         return (4, left, [self.str_term(d) if self.rng.random() < 0.85 else self.any_term(d) for _ in range(n)], brk)
 
-    def call(self, d):
+    def call(self, d, boolean=False):
         opts = ["keyMatch", "regexMatch"] + [g for g, _ in self.sh.gdefs] + list(self.user)
+        if boolean and self.rng.random() < 0.9:
+            opts = [f for f in opts if f not in ("idf", "second")]
         if self.rng.random() < 0.04:
             return (5, self.pick(["nofn", "keyMatch9"]), [self.str_term(d)])               # FunctionNotDefined
         f = self.pick(opts)
         garity = dict(self.sh.gdefs).get(f)
         if garity:
+            if self.rng.random() < 0.7:
+                a, b = self.same_domain_pair()
+                return (5, f, [a, b] + ([self.str_term(d)] if garity == 3 else []))
             return (5, f, [self.str_term(d) for _ in range(garity)])
         if f == "keyMatch":
+            if self.rng.random() < 0.6 and "obj" in self.sh.pdef and self.sh.types.get("obj", "str") == "str":
+                return (5, f, [(8, self.sfx, "obj", []), (9, self.sfx, "obj")])
             return (5, f, [self.str_term(d), self.str_term(d)])
         if f == "regexMatch":
             pat = (11, True, self.pick(PLAIN_LITS)) if self.rng.random() < 0.7 else (9, self.sfx, "act")
@@ -500,7 +538,7 @@ class Gen:
         if d <= 0 or r < 0.35:
             return (7, self.cond(d))
         if r < 0.75:
-            return self.call(d)
+            return self.call(d, True)
         if r < 0.85 and self.allow_eval and self.sh.eval_fields:
             return (6, self.sfx, self.pick(self.sh.eval_fields))
         return (7, self.expr(d - 1))
@@ -511,7 +549,7 @@ class Gen:
             return self.cmp(d)
         if r < 0.75:
             return self.isin(d)
-        return self.call(d)
+        return self.call(d, True)
 
     def notx(self, d):
         r = self.rng.random()
@@ -552,24 +590,27 @@ def depth_of(e):
     return (1 if t in (5, 7) else 0) + max([depth_of(k) for k in kids], default=0)
 
 
-def sub_conditions(e):
-    """comparison / in / call nodes of an AST (the generated sub-conditions)"""
+def sub_conditions(e, cond_pos=True):
+    """the generated sub-conditions: comparison / in nodes, and calls standing in condition position
+    (calls used as operands are terms, not conditions; parenthesised operands are descended into)"""
     out = []
     t = e[0]
-    if t in (3, 4) or (t == 5):
-        out.append(e)
     if t in (0, 1):
         out += sub_conditions(e[1]) + sub_conditions(e[2])
     elif t in (2, 7):
         out += sub_conditions(e[1])
     elif t == 3:
-        out += sub_conditions(e[2]) + sub_conditions(e[3])
+        out.append(e)
+        out += sub_conditions(e[2], False) + sub_conditions(e[3], False)
     elif t == 4:
+        out.append(e)
         for x in [e[1]] + list(e[2]):
-            out += sub_conditions(x)
+            out += sub_conditions(x, False)
     elif t == 5:
+        if cond_pos:
+            out.append(e)
         for x in e[2]:
-            out += sub_conditions(x)
+            out += sub_conditions(x, False)
     return out
 
 
